@@ -43,7 +43,7 @@ theorem ctx5_addHandlerContext_idem (h : HCfg) (c : Ctx) :
     ctx5 (addHandlerContext h (addHandlerContext h c)) = ctx5 (addHandlerContext h c) := by
   rw [ctx_values, ctx_values]
 
-example : ctx5 (addHandlerContext ⟨"h", 1, "in", "kafka.Subscriber", some 2, "", "kafka.Publisher", 0, false⟩
+example : ctx5 (addHandlerContext ⟨"h", 1, "in", "kafka.Subscriber", some 2, "", "kafka.Publisher", 0, false, false⟩
       [(.publishTopic, "upstream-topic"), (.handlerName, "upstream")]) =
     ⟨"h", "kafka.Publisher", "kafka.Subscriber", "in", ""⟩ := by decide
 
@@ -91,7 +91,7 @@ theorem ctx_on_produced (h : HCfg) (d : Delivery) :
     still carried an upstream handler's publish topic reported THAT topic, not its own empty one – the unguarded
     `ctx_values` was false for that code.  Same input as in corpus/C08 and the harness's stale cases. -/
 theorem Old.stale_context_shows_through :
-    let h : HCfg := ⟨"b", 1, "in", "S", none, "", "message.disabledPublisher", 0, true⟩
+    let h : HCfg := ⟨"b", 1, "in", "S", none, "", "message.disabledPublisher", 0, true, false⟩
     let d : Delivery := ⟨1, "in", 1, .outs [], [(.publishTopic, "upstream-topic")], .live⟩
     h.pubTopic = "" ∧ (Old.inCtx h d).pubTopic = "upstream-topic" ∧ Old.inCtx h d ≠ own h ∧
       (handleOne h d).inCtx = own h := by
@@ -202,9 +202,9 @@ theorem nopub_middleware_outputs_nack (h : HCfg) (d : Delivery) (hp : h.pub = no
   unfold handleOne
   simp [ho, hp]
 
-example : (handleOne ⟨"np", 1, "in", "S", none, "", "message.disabledPublisher", 2, true⟩ ⟨1, "in", 7, .outs [.fresh 0], [], .live⟩)
+example : (handleOne ⟨"np", 1, "in", "S", none, "", "message.disabledPublisher", 2, true, false⟩ ⟨1, "in", 7, .outs [.fresh 0], [], .live⟩)
     = ⟨7, "np", ⟨"np", "message.disabledPublisher", "S", "in", ""⟩, .nack, []⟩ := by decide
-example : (handleOne ⟨"h", 1, "in", "S", some 3, "out", "P", 1, false⟩ ⟨1, "in", 7, .outs [.fresh 0, .consumed, .fresh 0], [], .cancelledDuring⟩).calls
+example : (handleOne ⟨"h", 1, "in", "S", some 3, "out", "P", 1, false, false⟩ ⟨1, "in", 7, .outs [.fresh 0, .consumed, .fresh 0], [], .cancelledDuring⟩).calls
     = [⟨3, "out", [(.fresh 0, ⟨"h", "P", "S", "in", "out"⟩), (.consumed, ⟨"h", "P", "S", "in", "out"⟩),
                    (.fresh 0, ⟨"h", "P", "S", "in", "out"⟩), (.mw 0, ⟨"h", "P", "S", "in", "out"⟩)],
         [some (.fresh 0), some .consumed, some (.fresh 0), some (.mw 0)]⟩] := by decide
@@ -268,9 +268,9 @@ theorem subscriptions_bijective (cfg order : List HCfg) (hperm : order.Perm cfg)
 /-- non-vacuity: two handlers share subscriber and topic (both get a copy), a third listens elsewhere; started in
     a different order than configured -/
 example :
-    let a : HCfg := ⟨"a", 1, "t", "S", some 1, "oa", "P", 0, false⟩
-    let b : HCfg := ⟨"b", 1, "t", "S", none, "", "message.disabledPublisher", 1, true⟩
-    let c : HCfg := ⟨"c", 2, "t", "S2", some 1, "oc", "P", 0, false⟩
+    let a : HCfg := ⟨"a", 1, "t", "S", some 1, "oa", "P", 0, false, false⟩
+    let b : HCfg := ⟨"b", 1, "t", "S", none, "", "message.disabledPublisher", 1, true, false⟩
+    let c : HCfg := ⟨"c", 2, "t", "S2", some 1, "oc", "P", 0, false, false⟩
     let script : List Delivery := [⟨1, "t", 1, .outs [.fresh 0], [], .deadlineOverrun⟩, ⟨2, "t", 2, .err, [], .live⟩]
     (resultsOf "b" (route [c, b, a] script)).map (fun r => (r.mid, r.fn, r.settle, r.calls.length)) = [(1, "b", .nack, 0)] ∧
     (resultsOf "a" (route [c, b, a] script)).map (fun r => (r.mid, r.fn, r.settle, r.calls.length)) = [(1, "a", .ack, 1)] ∧
@@ -306,10 +306,12 @@ theorem runHandlers_idempotent (s : RSt) : rstep (rstep s .runHandlers) .runHand
     AddHandler, decorator registrations and earlier / later RunHandlers calls – a handler that is added and not yet
     started when that call happens is from then on, whatever `post` does (more handlers, more decorators, RunHandlers
     again and again), wrapped by exactly the publisher decorators registered in `pre`, each once, first added first on
-    the way out, and exactly the subscriber decorators of `pre`, each once, first added first on the way in. -/
+    the way out – none at all when it was registered with a nil publisher (there is nothing to decorate) – and exactly
+    the subscriber decorators of `pre`, each once, first added first on the way in. -/
 theorem decorated_exactly_once (pre post : List ROp) (x : RH)
     (hx : x ∈ (rexec {} pre).hs) (hns : x.started = false) (hp : x.pubPath = []) (hsp : x.subPath = []) :
-    (⟨x.cfg, true, (rexec {} pre).pd, (rexec {} pre).sd⟩ : RH) ∈ (rexec {} (pre ++ .runHandlers :: post)).hs := by
+    (⟨x.cfg, true, if x.cfg.nilPub then [] else (rexec {} pre).pd, (rexec {} pre).sd⟩ : RH) ∈
+      (rexec {} (pre ++ .runHandlers :: post)).hs := by
   have h1 : rexec {} (pre ++ .runHandlers :: post) = rexec (rstep (rexec {} pre) .runHandlers) post := by
     simp [rexec, List.foldl_append]
   rw [h1]
@@ -317,6 +319,35 @@ theorem decorated_exactly_once (pre post : List ROp) (x : RH)
   refine List.mem_map.mpr ⟨x, hx, ?_⟩
   cases x
   simp_all [startRH]
+
+/-- **no publisher ⇒ not decorated**: whatever the program, a handler registered with a nil publisher never has a
+    publisher decorator around "its publisher" – it keeps `h.publisher == nil`, so `publishProducedMessages` answers
+    ErrOutputInNoPublisherHandler (Nack, nothing published) and `handler.run` has nothing to Close -/
+theorem nil_publisher_never_decorated (ops : List ROp) :
+    ∀ x ∈ (rexec {} ops).hs, x.cfg.nilPub = true → x.pubPath = [] := by
+  suffices h : ∀ (s : RSt), (∀ x ∈ s.hs, x.cfg.nilPub = true → x.pubPath = []) →
+      ∀ x ∈ (rexec s ops).hs, x.cfg.nilPub = true → x.pubPath = [] from
+    h {} (by intro x hx; cases hx)
+  induction ops with
+  | nil => intro s hs; exact hs
+  | cons o rest ih =>
+    intro s hs
+    apply ih (rstep s o)
+    intro x hx hn
+    cases o with
+    | addHandler h =>
+      rcases List.mem_append.mp hx with h1 | h1
+      · exact hs x h1 hn
+      · simp at h1; subst h1; rfl
+    | pubDec i => exact hs x hx hn
+    | subDec i => exact hs x hx hn
+    | runHandlers =>
+      rcases List.mem_map.mp hx with ⟨y, hy, rfl⟩
+      by_cases hys : y.started = true
+      · simp only [startRH, hys, if_true] at hn ⊢; exact hs y hy hn
+      · have hyn : y.cfg.nilPub = true := by simpa [startRH, hys] using hn
+        simp only [startRH, hys, hyn]
+        exact hs y hy hyn
 
 /-- a handler never gets a non-empty path before it is started (so the side conditions of `decorated_exactly_once`
     hold for every not yet started handler of every reachable state) -/
@@ -363,10 +394,18 @@ theorem failed_attempt_then_retry (p : RH → Bool) (s : RSt) :
 /-- non-vacuity: decorator 7, handler a, Run; decorator 8 and handler b added to the running router, RunHandlers three
     times: a keeps [7], b gets [7, 8] once -/
 example :
-    let a : HCfg := ⟨"a", 1, "t", "S", some 1, "oa", "P", 0, false⟩
-    let b : HCfg := ⟨"b", 1, "t", "S", some 1, "ob", "P", 0, false⟩
+    let a : HCfg := ⟨"a", 1, "t", "S", some 1, "oa", "P", 0, false, false⟩
+    let b : HCfg := ⟨"b", 1, "t", "S", some 1, "ob", "P", 0, false, false⟩
     ((rexec {} [.pubDec 7, .subDec 3, .addHandler a, .runHandlers, .pubDec 8, .addHandler b,
                 .runHandlers, .runHandlers, .runHandlers]).hs.map fun h => (h.cfg.name, h.pubPath, h.subPath)) =
       [("a", [7], [3]), ("b", [7, 8], [3])] := by decide
+
+/-- non-vacuity: the same with handler b registered with a nil publisher: the publisher decorators skip it, the
+    subscriber decorators do not -/
+example :
+    let a : HCfg := ⟨"a", 1, "t", "S", some 1, "oa", "P", 0, false, false⟩
+    let b : HCfg := ⟨"b", 1, "t", "S", none, "ob", "<nil>", 0, false, true⟩
+    ((rexec {} [.pubDec 7, .subDec 3, .addHandler a, .addHandler b, .runHandlers, .runHandlers]).hs.map
+      fun h => (h.cfg.name, h.pubPath, h.subPath)) = [("a", [7], [3]), ("b", [], [3])] := by decide
 
 end Wm.Route
